@@ -82,6 +82,23 @@ Theorem C16_event_push :
     denote d' (S len) = map (degrade i2f d d') (denote d len) ++ [cell_of i2f d' v].
 Proof. exact push_ok. Qed.
 
+(* ... hence, for EVERY sequence of rows the row API accepts (by induction over the history), the
+   column buffer it ends with denotes exactly the pushed cells, row for row: nothing lost, nothing
+   shifted, NULL where a row did not mention the column, integers shown as floats iff the column
+   ended up a float column *)
+Theorem C16_event_rows :
+  forall (i2f : Z -> N) (cells : list (option anyval)) (d' : coldata),
+    push_rows i2f CEmpty 0 cells = Pushed d' ->
+    denote d' (length cells) = map (cellc i2f d') cells.
+Proof. exact push_rows_ok. Qed.
+
+Example C16_event_rows_example :
+  (* late start (sparse), a gap, then a float arriving in an integer column *)
+  exists d', push_rows (fun i => Z.to_N (i + 1000)) CEmpty 0
+               [None; Some (VInt 5); None; Some (VInt 7); Some (VFloat 42%N)] = Pushed d' /\
+             denote d' 5 = [XNone; XFloat 1005%N; XNone; XFloat 1007%N; XFloat 42%N].
+Proof. eexists. split; vm_compute; reflexivity. Qed.
+
 (* ... and the pushes the client library rejects (assert!/unimplemented!) are exactly: strings into
    numeric columns and numbers into string columns, a string that would make a string column sparse,
    anything into a Mixed column *)
